@@ -518,3 +518,36 @@ func ShowWrap(w *Wrap) string {
 	}
 	return s
 }
+
+// IndexWalk: an index loop whose index is used only as xs[i] (translated as the range loop it is), with continue,
+// a flag and break, and a local constant.
+func IndexWalk(xs []int, stop int) int {
+	const step = 3
+	var found = false
+	var s = 0
+	for i := 0; i < len(xs); i++ {
+		if xs[i] < 0 {
+			continue
+		}
+		if xs[i] == stop {
+			found = true
+			break
+		}
+		s += xs[i] * step
+	}
+	if found {
+		return -s
+	}
+	return s
+}
+
+// IndexWalkRet: the same header with an early return and a second use of xs[i].
+func IndexWalkRet(xs []int, stop int) int {
+	for i := 0; i < len(xs); i++ {
+		if xs[i] != stop {
+			continue
+		}
+		return xs[i] + 1
+	}
+	return 0
+}
